@@ -43,6 +43,42 @@ func kindsOf(p reflect.Value, functional bool) []string {
 	return ks
 }
 
+// a typed value the property does not admit (none of its kind setters takes it), if its generic type setter exists
+func badTypeFor(p reflect.Value, functional bool) (vocab.Type, bool) {
+	generic := "AppendType"
+	prefix := "Append"
+	if functional {
+		generic, prefix = "SetType", "Set"
+	}
+	if !p.MethodByName(generic).IsValid() {
+		return nil, false
+	}
+	t := p.Type()
+	for _, name := range []string{"Note", "Mention", "PublicKey", "Emoji", "Person", "Ticket", "Tombstone"} {
+		te := typeByName(name)
+		if te == nil {
+			continue
+		}
+		c := te.New()
+		ct := reflect.TypeOf(c)
+		admitted := false
+		for i := 0; i < t.NumMethod(); i++ {
+			m := t.Method(i)
+			if !strings.HasPrefix(m.Name, prefix) || m.Name == generic || m.Type.NumIn() != 2 {
+				continue
+			}
+			pt := m.Type.In(1)
+			if pt.Kind() == reflect.Interface && pt.NumMethod() > 3 && ct.Implements(pt) {
+				admitted = true
+			}
+		}
+		if !admitted {
+			return c, true
+		}
+	}
+	return nil, false
+}
+
 // the setter of kind k: Set<K>, or plain Set for the single literal kind of a functional property
 func setterOf(p reflect.Value, prefix, kind string) reflect.Value {
 	m := p.MethodByName(prefix + kind)
@@ -260,6 +296,32 @@ func runContainer(in J) interface{} {
 						setterOf(p, "Set", kind).Call([]reflect.Value{reflect.ValueOf(intOf(op["i"], 0)), v})
 					}
 				}
+			case "badtype":
+				// a typed value outside the range, through the generic setter: refused, and nothing changes
+				c, ok := badTypeFor(p, pe.Functional)
+				if !ok {
+					break
+				}
+				cv := reflect.ValueOf(c)
+				iv := reflect.ValueOf(intOf(op["i"], 0))
+				var out []reflect.Value
+				switch op["how"] {
+				case "set":
+					if pe.Functional {
+						out = p.MethodByName("SetType").Call([]reflect.Value{cv})
+					} else {
+						out = p.MethodByName("SetType").Call([]reflect.Value{iv, cv})
+					}
+				case "append":
+					out = p.MethodByName("AppendType").Call([]reflect.Value{cv})
+				case "prepend":
+					out = p.MethodByName("PrependType").Call([]reflect.Value{cv})
+				case "insert":
+					out = p.MethodByName("InsertType").Call([]reflect.Value{iv, cv})
+				}
+				if len(out) == 1 && out[0].IsNil() {
+					obs["badTypeAccepted"] = true
+				}
 			case "remove":
 				p.MethodByName("Remove").Call([]reflect.Value{reflect.ValueOf(intOf(op["i"], 0))})
 			case "swap":
@@ -394,6 +456,9 @@ func init() {
 							alphabet = append(alphabet, J{"op": "set", "kind": "RDFLangString", "n": 8, "tok": tok8, "via": "language"})
 						}
 					}
+					if _, ok := badTypeFor(p, true); ok {
+						alphabet = append(alphabet, J{"op": "badtype", "how": "set"})
+					}
 					var rec func(prefix []interface{}, depth int)
 					rec = func(prefix []interface{}, depth int) {
 						yield(J{"prop": pe.Name, "functional": true, "ops": append([]interface{}{}, prefix...)})
@@ -411,6 +476,7 @@ func init() {
 					rec(nil, d)
 					continue
 				}
+				_, hasBad := badTypeFor(p, false)
 				for c := 0; c < perProp; c++ {
 					l := 1 + r.intn(6)
 					if c%5 == 4 {
@@ -511,6 +577,12 @@ func init() {
 						}
 						if op != nil {
 							ops = append(ops, op)
+						}
+						if hasBad && r.chance(12) {
+							how := []string{"append", "prepend", "insert", "set"}[r.intn(4)]
+							if cur > 0 || how == "append" || how == "prepend" {
+								ops = append(ops, J{"op": "badtype", "how": how, "i": idx(cur)})
+							}
 						}
 					}
 					yield(J{"prop": pe.Name, "functional": false, "ops": orEmpty(ops)})
